@@ -26,7 +26,8 @@ RULE = ('(universes) DynamicUniverse / StaticUniverse alone: entry maps over 1-8
         '(optimisers) >= 2 assets.'
         ' Round-5 reach: the universe-driven alpha model is also built with its optional data-handler argument (a handler pricing every other asset): its signals still cover exactly the members.'
         " Round-10 reach: configured static lists naming a symbol twice; `static` part: a second strategy with its own portfolio and static universe on the same account (after every rebalance each portfolio holds assets of its own universe only)."
-        " Round-11 reach: whole-number / boolean weight dictionaries for the optimisers; entry dates given as datetime.datetime; a MomentumSignal built over the universe takes up later entrants before the universe is queried.")
+        " Round-11 reach: whole-number / boolean weight dictionaries for the optimisers; entry dates given as datetime.datetime; a MomentumSignal built over the universe takes up later entrants before the universe is queried."
+        " Round-12 reach: mixed-case symbols (EQ:Brk.b, EQ:spy); entry instants carrying a fraction of a second.")
 ASSUMPTIONS = [
     'UTC-aware timestamps; up to 8 assets (direct) / 5 symbols (sessions); sessions of 8-60 days',
     'session markets are dense with data from 9 days before the start (an unpriced member is C06/C07\'s subject)',
@@ -40,6 +41,10 @@ def run_universe(case):
     FAR = {'y2300': pd.Timestamp('2300-01-01', tz='UTC'), 'y9999': pd.Timestamp('9999-12-31', tz='UTC'),
            'y1968': pd.Timestamp('1968-01-15 21:00', tz='UTC'), 'y1700': pd.Timestamp('1700-06-01', tz='UTC')}
     entries = [None if e is None else (FAR[e] if isinstance(e, str) else T0 + pd.Timedelta(minutes=e)) for e in case['entries']]
+    # (an entry instant may carry a fraction of a second)
+    us_ = case.get('entry_us') or []
+    entries = [e if e is None or isinstance(case['entries'][i], str) or i >= len(us_) or not us_[i]
+               else e + pd.Timedelta(microseconds=us_[i]) for i, e in enumerate(entries)]
     zones = case.get('zones') or []
     for i, z in enumerate(zones):
         if z and i < len(entries) and entries[i] is not None:
@@ -106,7 +111,7 @@ def run_universe(case):
 
 @st.composite
 def universes(draw):
-    assets = draw(st.lists(st.sampled_from(kit.ASSET_POOL), min_size=1, max_size=8, unique=True))
+    assets = draw(st.lists(st.sampled_from(kit.ASSET_POOL + ['EQ:Brk.b', 'EQ:spy']), min_size=1, max_size=8, unique=True))     # incl. mixed-case symbols
     entries = [draw(st.one_of(st.none(), st.integers(-3000, 3000), st.sampled_from([0, 1, -1, 60, 1440]),
                               st.sampled_from(['y2300', 'y9999']))) for _ in assets]      # incl. 'never' sentinels centuries ahead
     qs = []
@@ -118,6 +123,7 @@ def universes(draw):
     zones = [draw(st.sampled_from([None, None, None, 'America/New_York', 'Asia/Tokyo', 'Europe/London'])) for _ in assets]
     return {'assets': assets, 'entries': entries, 'queries': qs, 'zones': zones, 'dup': draw(st.sampled_from([0, 0, 1, 2])),
             'pydatetime': draw(st.sampled_from([False, False, True])),
+            'entry_us': [draw(st.sampled_from([0, 0, 0, 250000, 1, 999999])) for _ in assets],
             'signal_on_universe': draw(st.sampled_from([None, None, 1, 400, 4000]))}
 
 
